@@ -85,8 +85,7 @@ theorem eraseExpr_nt (path : Bytes) (e : PExpr) (e' : Expr) (h : eraseExpr path 
   cases e with
   | binary k l op le r =>
     cases k <;> cases le <;>
-      simp only [eraseExpr, Option.bind_eq_some_iff, Option.some.injEq, reduceCtorEq, false_and,
-        exists_false, exists_const] at h <;>
+      simp only [eraseExpr, Option.bind_eq_some_iff, Option.some.injEq, reduceCtorEq] at h <;>
       first
       | (obtain ⟨_, _, _, _, rfl⟩ := h; rfl)
       | exact absurd h (by simp)
@@ -130,7 +129,7 @@ theorem leftOk_of_nt (isLet : Bool) (e' : Expr) (h : assignable (ntE e') = true)
     | (show isLet = false
        cases isLet
        · rfl
-       · exact absurd (h2 rfl) (by decide))
+       · exact absurd (h2 rfl) (by simp [ntE]))
 
 theorem eraseExpr_leftOk (path : Bytes) (isLet : Bool) (e : PExpr) (e' : Expr) (hs : LeftShape isLet e)
     (h : eraseExpr path e = some e') : Eval.LeftOk isLet e' := by
@@ -293,5 +292,282 @@ theorem eraseExprs_wf (path : Bytes) : ∀ (es : List PExpr) (es' : List Expr),
     rw [Eval.ExprsWf]
     exact ⟨eraseExpr_wf path e e' hs.1 he, eraseExprs_wf path es es' hs.2 hes⟩
 end
+
+/-! ### assignments, commands, pipelines, parameter lists -/
+
+/-- `setA` -/
+def eraseSet (path : Bytes) (s : PSet) : Option SetN :=
+  (eraseExprs path s.left).bind fun left =>
+  (eraseExprs path s.right).bind fun right =>
+  some { loc := ⟨path, s.line⟩, isLet := s.isLet, lookup := s.lookup, left := left, right := right }
+
+/-- `match set with | none => pure none | some x => do pure (some (← setA path x))` -/
+def eraseSetOpt (path : Bytes) : Option PSet → Option (Option SetN)
+  | none => some none
+  | some x => (eraseSet path x).bind fun x' => some (some x')
+
+/-- `cmdA`: a nil argument list erases to `([], false)` -/
+def eraseCmd (path : Bytes) (c : PCmd) : Option Cmd :=
+  (match c.args with
+   | none => some (([] : List Expr), false)
+   | some as => (eraseExprs path as).bind fun as' => some (as', true)).bind fun an =>
+  (eraseExpr path c.base).bind fun base =>
+  some { loc := ⟨path, c.line⟩, base := base, args := an.1, argsNonNil := an.2, hasSlot := c.hasSlot }
+
+/-- `cmds.mapM (cmdA path)` -/
+def eraseCmds (path : Bytes) : List PCmd → Option (List Cmd)
+  | [] => some []
+  | c :: cs =>
+    (eraseCmd path c).bind fun c' =>
+    (eraseCmds path cs).bind fun cs' => some (c' :: cs')
+
+/-- `pipeA` -/
+def erasePipe (path : Bytes) (p : PPipe) : Option Pipe :=
+  (eraseCmds path p.cmds).bind fun cmds => some { loc := ⟨path, p.line⟩, cmds := cmds }
+
+/-- `match pipe with | none => pure none | some x => do pure (some (← pipeA path x))` -/
+def erasePipeOpt (path : Bytes) : Option PPipe → Option (Option Pipe)
+  | none => some none
+  | some x => (erasePipe path x).bind fun x' => some (some x')
+
+/-- `paramsA` -/
+def eraseParams (path : Bytes) : List PParam → Option (List Param)
+  | [] => some []
+  | p :: ps =>
+    (eraseExprOpt path p.dflt).bind fun d =>
+    (eraseParams path ps).bind fun ps' => some ({ name := p.name, dflt := d } :: ps')
+
+/-- `match params with | none => pure none | some x => do pure (some (← paramsA path x))` -/
+def eraseParamsOpt (path : Bytes) : Option (List PParam) → Option (Option (List Param))
+  | none => some none
+  | some x => (eraseParams path x).bind fun x' => some (some x')
+
+theorem eraseExprs_wf' (path : Bytes) (es : List PExpr) (es' : List Expr) (hs : Shp.ok es)
+    (h : eraseExprs path es = some es') : Eval.ExprsWf es' :=
+  eraseExprs_wf path es es' ((PExpr.shapedList_iff es).mpr hs) h
+
+theorem eraseExprOpt_wf' (path : Bytes) (o : Option PExpr) (o' : Option Expr) (hs : Shp.ok o)
+    (h : eraseExprOpt path o = some o') : Eval.ExprOWf o' :=
+  eraseExprOpt_wf path o o' ((PExpr.shapedOpt_iff o).mpr hs) h
+
+theorem eraseSet_wf {path : Bytes} {s : PSet} {s' : SetN} (hs : PSet.Shaped s) (hl : PSet.LenOk s)
+    (h : eraseSet path s = some s') : Eval.SetWf s' := by
+  simp only [eraseSet, Option.bind_eq_some_iff, Option.some.injEq] at h
+  obtain ⟨left, hleft, right, hright, rfl⟩ := h
+  obtain ⟨hsl, hsr, hla, hlne, hrne, hlk⟩ := hs
+  have hll := eraseExprs_length path _ _ hleft
+  have hrl := eraseExprs_length path _ _ hright
+  refine ⟨eraseExprs_wf' path _ _ hsr hright, ?_, ?_, ?_⟩
+  · intro l hl
+    obtain ⟨x, hx, hxe⟩ := eraseExprs_mem path _ _ hleft l hl
+    exact eraseExpr_leftOk path _ x l (hla x hx) hxe
+  · intro hk
+    have h2 : left.length = 2 := by rw [hll]; exact hlk hk
+    have hr0 : right ≠ [] := by
+      intro h0; subst h0; apply hrne; exact List.length_eq_zero_iff.mp hrl.symm
+    match left, h2, right, hr0 with
+    | [l0, l1], _, rgt :: rest, _ => exact ⟨l0, l1, rgt, rest, rfl, rfl⟩
+  · intro hk
+    show left.length ≤ right.length
+    rw [hll, hrl]; exact hl hk
+
+theorem eraseSet_rangeWf {path : Bytes} {s : PSet} {s' : SetN} (hs : PSet.Shaped s)
+    (h : eraseSet path s = some s') : Eval.RangeSetWf s' := by
+  simp only [eraseSet, Option.bind_eq_some_iff, Option.some.injEq] at h
+  obtain ⟨left, hleft, right, hright, rfl⟩ := h
+  obtain ⟨hsl, hsr, hla, hlne, hrne, hlk⟩ := hs
+  have hll := eraseExprs_length path _ _ hleft
+  have hrl := eraseExprs_length path _ _ hright
+  refine ⟨?_, ?_, ?_⟩
+  · intro h0
+    have h0' : left = [] := h0
+    subst h0'; apply hlne; exact List.length_eq_zero_iff.mp hll.symm
+  · intro l hl
+    obtain ⟨x, hx, hxe⟩ := eraseExprs_mem path _ _ hleft l hl
+    exact Or.inr (eraseExpr_leftSetOk path _ x l (hla x hx) hxe)
+  · have hw := eraseExprs_wf' path _ _ hsr hright
+    have hr0 : right ≠ [] := by
+      intro h0; subst h0; apply hrne; exact List.length_eq_zero_iff.mp hrl.symm
+    match right, hr0, hw with
+    | rgt :: rest, _, hw =>
+      rw [Eval.ExprsWf] at hw
+      exact ⟨rgt, rest, rfl, hw.1⟩
+
+theorem eraseSetOpt_wf {path : Bytes} {o : Option PSet} {o' : Option SetN} (hs : Shp.ok o)
+    (hl : PSet.LenOkOpt o) (h : eraseSetOpt path o = some o') : Eval.SetOWf o' := by
+  cases o with
+  | none => simp only [eraseSetOpt, Option.some.injEq] at h; subst h; trivial
+  | some x =>
+    simp only [eraseSetOpt, Option.bind_eq_some_iff, Option.some.injEq] at h
+    obtain ⟨x', hx, rfl⟩ := h
+    exact eraseSet_wf (hs x rfl) hl hx
+
+theorem eraseCmd_wf {path : Bytes} {c : PCmd} {c' : Cmd} (hs : PCmd.Shaped c)
+    (h : eraseCmd path c = some c') : ∀ first, Eval.CmdWf first c' := by
+  intro first
+  obtain ⟨hb, ha, hsl⟩ := hs
+  simp only [eraseCmd, Option.bind_eq_some_iff, Option.some.injEq] at h
+  obtain ⟨an, han, base, hbase, rfl⟩ := h
+  have hbw : Eval.ExprWf base := eraseExpr_wf path _ _ hb hbase
+  cases hargs : c.args with
+  | none =>
+    rw [hargs] at han
+    simp only [Option.some.injEq] at han
+    subst han
+    exact ⟨hbw, trivial, fun _ hany => by cases hany⟩
+  | some as =>
+    rw [hargs] at han
+    simp only [Option.bind_eq_some_iff, Option.some.injEq] at han
+    obtain ⟨as', has, rfl⟩ := han
+    refine ⟨hbw, eraseExprs_wf' path as as' (ha as hargs) has, fun _ => ?_⟩
+    have : c.argList = as := by simp [PCmd.argList, hargs]
+    rw [this] at hsl
+    exact eraseExprs_slot path as as' _ has hsl
+
+theorem eraseCmds_cons (path : Bytes) (c : PCmd) (cs : List PCmd) (l' : List Cmd)
+    (h : eraseCmds path (c :: cs) = some l') :
+    ∃ c' cs', l' = c' :: cs' ∧ eraseCmd path c = some c' ∧ eraseCmds path cs = some cs' := by
+  simp only [eraseCmds, Option.bind_eq_some_iff, Option.some.injEq] at h
+  obtain ⟨c', hc, cs', hcs, rfl⟩ := h
+  exact ⟨c', cs', rfl, hc, hcs⟩
+
+theorem eraseCmds_wf (path : Bytes) : ∀ (cs : List PCmd) (cs' : List Cmd),
+    (∀ c ∈ cs, PCmd.Shaped c) → eraseCmds path cs = some cs' → ∀ c' ∈ cs', ∀ first, Eval.CmdWf first c'
+  | [], cs', _, h, c', hc' => by simp only [eraseCmds, Option.some.injEq] at h; subst h; cases hc'
+  | c :: cs, l', hs, h, x', hx => by
+    obtain ⟨c', cs', rfl, hc, hcs⟩ := eraseCmds_cons path c cs l' h
+    rcases List.mem_cons.mp hx with rfl | hx
+    · exact eraseCmd_wf (hs c List.mem_cons_self) hc
+    · exact eraseCmds_wf path cs cs' (fun d hd => hs d (List.mem_cons_of_mem _ hd)) hcs x' hx
+
+theorem erasePipe_wf {path : Bytes} {p : PPipe} {p' : Pipe} (hs : PPipe.Shaped p)
+    (h : erasePipe path p = some p') : Eval.PipeWf p' := by
+  simp only [erasePipe, Option.bind_eq_some_iff, Option.some.injEq] at h
+  obtain ⟨cmds, hcmds, rfl⟩ := h
+  obtain ⟨hne, hok⟩ := hs
+  have hall := eraseCmds_wf path p.cmds cmds hok hcmds
+  cases hpc : p.cmds with
+  | nil => exact absurd hpc hne
+  | cons c cs =>
+    rw [hpc] at hcmds
+    obtain ⟨c', cs', rfl, _, _⟩ := eraseCmds_cons path c cs cmds hcmds
+    show Eval.CmdWf true c' ∧ ∀ d ∈ cs', Eval.CmdWf false d
+    exact ⟨hall c' List.mem_cons_self true, fun d hd => hall d (List.mem_cons_of_mem _ hd) false⟩
+
+theorem erasePipeOpt_wf {path : Bytes} {o : Option PPipe} {o' : Option Pipe} (hs : Shp.ok o)
+    (h : erasePipeOpt path o = some o') : Eval.PipeOWf o' := by
+  cases o with
+  | none => simp only [erasePipeOpt, Option.some.injEq] at h; subst h; trivial
+  | some x =>
+    simp only [erasePipeOpt, Option.bind_eq_some_iff, Option.some.injEq] at h
+    obtain ⟨x', hx, rfl⟩ := h
+    exact erasePipe_wf (hs x rfl) hx
+
+theorem eraseParams_wf {path : Bytes} : ∀ {ps : List PParam} {ps' : List Param},
+    Shp.ok ps → eraseParams path ps = some ps' → Eval.ParamsWf ps'
+  | [], ps', _, h => by
+    simp only [eraseParams, Option.some.injEq] at h; subst h
+    intro p hp; cases hp
+  | p :: ps, l', hs, h => by
+    simp only [eraseParams, Option.bind_eq_some_iff, Option.some.injEq] at h
+    obtain ⟨d, hd, ps', hps, rfl⟩ := h
+    intro q hq
+    rcases List.mem_cons.mp hq with rfl | hq
+    · exact eraseExprOpt_wf' path p.dflt d (hs p List.mem_cons_self) hd
+    · exact eraseParams_wf (ps := ps) (fun a ha => hs a (List.mem_cons_of_mem _ ha)) hps q hq
+
+theorem eraseParamsOpt_wf {path : Bytes} {o : Option (List PParam)} {o' : Option (List Param)}
+    (hs : Shp.ok o) (h : eraseParamsOpt path o = some o') : Eval.ParamsOWf o' := by
+  cases o with
+  | none => simp only [eraseParamsOpt, Option.some.injEq] at h; subst h; trivial
+  | some x =>
+    simp only [eraseParamsOpt, Option.bind_eq_some_iff, Option.some.injEq] at h
+    obtain ⟨x', hx, rfl⟩ := h
+    exact eraseParams_wf (hs x rfl) hx
+
+theorem eraseParamsOpt_isSome {path : Bytes} {o : Option (List PParam)} {o' : Option (List Param)}
+    (h : eraseParamsOpt path o = some o') : o'.isSome = o.isSome := by
+  cases o with
+  | none => simp only [eraseParamsOpt, Option.some.injEq] at h; subst h; rfl
+  | some x =>
+    simp only [eraseParamsOpt, Option.bind_eq_some_iff, Option.some.injEq] at h
+    obtain ⟨x', hx, rfl⟩ := h
+    rfl
+
+/-- the header of a range: the assignment if there is one, else the expression -/
+theorem eraseRangeHead_wf {path : Bytes} {set : Option PSet} {e : Option PExpr} {s' : Option SetN}
+    {e' : Option Expr} (hs : Shp.ok set) (hne : set = none → e ≠ none) (he : Shp.ok e)
+    (h1 : eraseSetOpt path set = some s') (h2 : eraseExprOpt path e = some e') :
+    Eval.RangeHeadWf s' e' := by
+  cases set with
+  | some x =>
+    simp only [eraseSetOpt, Option.bind_eq_some_iff, Option.some.injEq] at h1
+    obtain ⟨x', hx, rfl⟩ := h1
+    exact eraseSet_rangeWf (hs x rfl) hx
+  | none =>
+    simp only [eraseSetOpt, Option.some.injEq] at h1; subst h1
+    cases e with
+    | none => exact absurd rfl (hne rfl)
+    | some c =>
+      simp only [eraseExprOpt, Option.bind_eq_some_iff, Option.some.injEq] at h2
+      obtain ⟨c', hc, rfl⟩ := h2
+      exact eraseExpr_wf path c c' (he c rfl) hc
+
+/-! ### statements -/
+
+mutual
+/-- `stmtA` -/
+def eraseStmt (path : Bytes) : PStmt → Option Stmt
+  | .text l b => some (.text ⟨path, l⟩ b)
+  | .action l set pipe =>
+    (eraseSetOpt path set).bind fun s =>
+    (erasePipeOpt path pipe).bind fun p => some (.action ⟨path, l⟩ s p)
+  | .branch isIf l set e _ list els =>
+    (eraseSetOpt path set).bind fun s =>
+    (eraseStmts path list).bind fun body =>
+    (eraseEls path els).bind fun el =>
+    if isIf then
+      match e with
+      | some c => (eraseExpr path c).bind fun c' => some (.ifS ⟨path, l⟩ s c' body el)
+      | none => none
+    else (eraseExprOpt path e).bind fun e' => some (.rangeS ⟨path, l⟩ s e' body el)
+  | .block l name params ctx _ list content =>
+    (eraseParams path params).bind fun ps =>
+    (eraseExprOpt path ctx).bind fun ctx' =>
+    (eraseStmts path list).bind fun body =>
+    (eraseEls path content).bind fun content' => some (.block ⟨path, l⟩ name ps ctx' body content')
+  | .yield l name params ctx content isC =>
+    (eraseParamsOpt path params).bind fun ps =>
+    (eraseExprOpt path ctx).bind fun ctx' =>
+    (eraseEls path content).bind fun content' => some (.yield ⟨path, l⟩ name ps ctx' content' isC)
+  | .include l name ctx =>
+    (eraseExpr path name).bind fun name' =>
+    (eraseExprOpt path ctx).bind fun ctx' => some (.include ⟨path, l⟩ name' ctx')
+  | .tryS l _ list none =>
+    (eraseStmts path list).bind fun body => some (.tryS ⟨path, l⟩ body false none none)
+  | .tryS l _ list (some (_, ev, _, clist)) =>
+    (eraseStmts path list).bind fun body =>
+    (eraseStmts path clist).bind fun cb => some (.tryS ⟨path, l⟩ body true (ev.map (·.2)) (some cb))
+  | .ret l e => (eraseExpr path e).bind fun e' => some (.ret ⟨path, l⟩ e')
+  | .endM => none
+  | .elseM _ => none
+  | .contentM => none
+  | .catchM _ _ _ _ => none
+/-- `ns.mapM (stmtA path)` -/
+def eraseStmts (path : Bytes) : List PStmt → Option (List Stmt)
+  | [] => some []
+  | s :: ss =>
+    (eraseStmt path s).bind fun s' =>
+    (eraseStmts path ss).bind fun ss' => some (s' :: ss')
+/-- `optListA` -/
+def eraseEls (path : Bytes) : Option (Nat × List PStmt) → Option (Option (List Stmt))
+  | none => some none
+  | some (_, ns) => (eraseStmts path ns).bind fun ns' => some (some ns')
+end
+
+/-- the tree `parseFile` hands to the store (its block table is filled in by `withBlocks`) -/
+def eraseTmpl (path : Bytes) (t : PTmpl) : Option Tmpl :=
+  (eraseStmts path t.root).map fun root =>
+    { name := t.name, ext := t.ext, imports := t.imports, blocks := [], root := root }
 
 end JetVerif.Parse
